@@ -36,17 +36,53 @@ func valueCase(d VD) engine.Case {
 	return engine.Case{ID: "v/" + compact(d), Data: Data{Mode: "value", V: &dd}}
 }
 
+// valueCaseNamed: the value written under the attribute name `name` instead of x.
+func valueCaseNamed(d VD, name string) engine.Case {
+	if name == "" {
+		return valueCase(d)
+	}
+	dd := d
+	return engine.Case{ID: "v/" + compact(d) + "@" + abbrev(name), Data: Data{Mode: "value", V: &dd, Name: name}}
+}
+
+func idType(typeName string) string {
+	if len(typeName) > 48 {
+		return abbrev(typeName)
+	}
+	return typeName
+}
+
+// labels2CaseMode: a block constructed with `first`, then SetLabels(second).
+func labels2CaseMode(mode, typeName string, first, second []string) engine.Case {
+	reader := strings.TrimPrefix(strings.TrimPrefix(mode, "labels2"), "-")
+	if reader == "" {
+		reader = "hclsyntax"
+	}
+	if typeName == "" {
+		typeName = "blk"
+	}
+	q := func(ls []string) string {
+		ps := make([]string, len(ls))
+		for i, l := range ls {
+			ps[i] = abbrev(l)
+		}
+		return strings.Join(ps, ",")
+	}
+	return engine.Case{ID: "l2/" + reader + "/" + idType(typeName) + "/" + q(first) + ">" + q(second),
+		Data: Data{Mode: mode, BlockType: typeName, Labels: append([]string{}, first...), Labels2: append([]string{}, second...)}}
+}
+
 // labelsCase emits nothing itself; see labelsCases for the three readers.
 func labelsCaseMode(mode, typeName string, labels []string) engine.Case {
 	var ps []string
 	for _, l := range labels {
-		ps = append(ps, fmt.Sprintf("%+q", l))
+		ps = append(ps, abbrev(l))
 	}
 	reader := strings.TrimPrefix(strings.TrimPrefix(mode, "labels"), "-")
 	if reader == "" {
 		reader = "hclsyntax"
 	}
-	return engine.Case{ID: "l/" + reader + "/" + typeName + "/" + strings.Join(ps, ","), Data: Data{Mode: mode, BlockType: typeName, Labels: append([]string{}, labels...)}}
+	return engine.Case{ID: "l/" + reader + "/" + idType(typeName) + "/" + strings.Join(ps, ","), Data: Data{Mode: mode, BlockType: typeName, Labels: append([]string{}, labels...)}}
 }
 
 func travCase(root string, steps []Step) engine.Case {
@@ -59,6 +95,9 @@ func travCase(root string, steps []Step) engine.Case {
 	}
 	for _, s := range steps {
 		sb.WriteString(s.short())
+	}
+	if len(root) > 48 {
+		return engine.Case{ID: "t/" + abbrev(root) + sb.String()[2+len(root):], Data: Data{Mode: "trav", Root: root, Steps: append([]Step{}, steps...)}}
 	}
 	return engine.Case{ID: sb.String(), Data: Data{Mode: "trav", Root: root, Steps: append([]Step{}, steps...)}}
 }
@@ -485,4 +524,250 @@ func gen(tier string, emit0 func(engine.Case) bool) {
 			return
 		}
 	}
+
+	// 6. the size dimension: nesting depth and token length
+	if !genSizes(thorough, emit, emitLabels) {
+		return
+	}
+	// 7. two-step label sequences
+	genLabelPairs(thorough, emit)
+}
+
+// ---- 6. sizes -----------------------------------------------------------
+
+// nestPatterns: the wrapper letters cycled from the innermost level outwards
+// (see vnest): tuples, objects, lists, maps, sets, alternations of them, and
+// the two-member wrappers V and W in which the nested value is followed by
+// another member at every level.
+var nestPatterns = []string{"T", "O", "TO", "OT", "L", "M", "S", "LM", "V", "W", "WV"}
+
+func nestDepths(thorough bool) []int {
+	max := 70
+	if thorough {
+		max = 140
+	}
+	var out []int
+	for n := 1; n <= max; n++ {
+		out = append(out, n)
+	}
+	if thorough {
+		out = append(out, 255, 256, 257, 511, 512, 513)
+	}
+	return out
+}
+
+// nestContexts: where the deeply nested value sits: alone (the attribute
+// path then writes it followed by other attributes and a block), as a
+// non-last and as the last attribute of an object, as a non-last and as the
+// last element of a tuple, as both values of a map.
+func nestContexts(v VD) []VD {
+	return []VD{
+		v,
+		vobj("a", v, "b", vb(true)),
+		vobj("a", vb(true), "b", v),
+		vtuple(v, vb(true)),
+		vtuple(vb(true), v),
+		vmap("a", v, "b", v),
+	}
+}
+
+// sizedPatterns: the runes cycled to make a long string: plain ASCII (also an
+// identifier), two-byte UTF-8 (also an identifier), an escaped control
+// character (two bytes of source per rune), a template introducer (escaped
+// with one more byte per pair) and the quote (escaped).
+var sizedPatterns = []string{"a", "é", "\n", "${", "\""}
+
+func sizedStringWrappers(pat string, n int) []VD {
+	d, s := vsr(pat, n), repString(pat, n)
+	return []VD{
+		d,
+		vlist(d),
+		vtuple(d, vb(true)),
+		vtuple(vb(true), d),
+		vset(d),
+		vmap(s, vs("v")),
+		vmap("k", d),
+		vobj(s, d),
+		vobj("a", d, "b", vb(true)),
+		vmap(s, vs("v"), "k", vs("w")),
+	}
+}
+
+func genSizes(thorough bool, emit func(engine.Case) bool, emitLabels func(string, []string) bool) bool {
+	// 6a. nesting depth
+	for _, n := range nestDepths(thorough) {
+		for _, pat := range nestPatterns {
+			if n > 8 && pat == "S" {
+				// go-cty (trusted base) takes time 2^depth to construct and to
+				// convert a set of sets of ...; sets are nested to depth 8 only
+				continue
+			}
+			if n > 140 && strings.ContainsAny(pat, "LM") {
+				// converting the read-back tuples/objects to lists/maps is cubic
+				// in the depth (go-cty); the depths around 256 and 512 are
+				// enumerated for the tuple and object wrappers only
+				continue
+			}
+			for _, w := range nestContexts(vnest(pat, n, vs("x"))) {
+				if !emit(valueCase(w)) {
+					return false
+				}
+			}
+		}
+	}
+	// 6b. token length
+	maxPow := 14
+	if thorough {
+		maxPow = 16
+	}
+	for _, n := range sizeLens(maxPow) {
+		for _, pat := range sizedPatterns {
+			s := repString(pat, n)
+			ident := pat == "a" || pat == "é"
+			for _, w := range sizedStringWrappers(pat, n) {
+				if !emit(valueCase(w)) {
+					return false
+				}
+			}
+			// block labels (alone, before and after another label) and block type
+			if !emitLabels("blk", []string{s}) || !emitLabels("blk", []string{s, "b"}) || !emitLabels("blk", []string{"b", s}) {
+				return false
+			}
+			if ident && !emitLabels(s, []string{"l"}) {
+				return false
+			}
+			// traversal steps: string key, attribute name, root name
+			if !emit(travCase("a", []Step{{"str", s}})) || !emit(travCase("", []Step{{"str", s}})) ||
+				!emit(travCase("a", []Step{{"attr", "b"}, {"str", s}, {"attr", "c"}})) {
+				return false
+			}
+			if ident {
+				if !emit(travCase("a", []Step{{"attr", s}})) || !emit(travCase("a", []Step{{"attr", s}, {"str", "k"}})) ||
+					!emit(travCase(s, nil)) || !emit(travCase(s, []Step{{"attr", "b"}})) {
+					return false
+				}
+				// attribute name
+				if s != "y" && s != "z" {
+					if !emit(valueCaseNamed(vb(true), s)) || !emit(valueCaseNamed(vs("v"), s)) {
+						return false
+					}
+				}
+			}
+		}
+		// number tokens of n bytes: 10^(n-1), its negation (n digits after a
+		// minus sign), 10^-(n-2)
+		names := []string{fmt.Sprintf("1e%d", n-1), fmt.Sprintf("-1e%d", n-1)}
+		if n >= 3 {
+			names = append(names, fmt.Sprintf("1e-%d", n-2))
+		}
+		for _, name := range names {
+			d := vn(name)
+			for _, w := range []VD{d, vlist(d, vn("1")), vtuple(vs("a"), d), vmap("k", d), vobj("a", d, "b", vb(true))} {
+				if !emit(valueCase(w)) {
+					return false
+				}
+			}
+			if !emit(travCase("a", []Step{{"num", name}})) || !emit(travCase("", []Step{{"num", name}, {"attr", "b"}})) {
+				return false
+			}
+		}
+	}
+	return true
+}
+
+// ---- 7. label pairs -----------------------------------------------------
+
+func stringsOver(alpha []rune, maxLen int) []string {
+	out := []string{""}
+	prev := []string{""}
+	for l := 1; l <= maxLen; l++ {
+		var cur []string
+		for _, p := range prev {
+			for _, r := range alpha {
+				cur = append(cur, p+string(r))
+			}
+		}
+		out = append(out, cur...)
+		prev = cur
+	}
+	return out
+}
+
+// pairLabels: the labels of the two-step sequences: every string of at most
+// 4 (thorough 5) characters over {$ { a} and over {% { a} (all runs of an
+// introducer character before and after "{"), every string of at most 3 over
+// {$ % { a}, and every string of at most one rune of the escape alphabet;
+// shortest first.
+func pairLabels(thorough bool) []string {
+	n := 4
+	if thorough {
+		n = 5
+	}
+	var all []string
+	all = append(all, stringsOver([]rune{'$', '{', 'a'}, n)...)
+	all = append(all, stringsOver([]rune{'%', '{', 'a'}, n)...)
+	all = append(all, stringsOver([]rune{'$', '%', '{', 'a'}, 3)...)
+	all = append(all, stringsOver(strAlpha, 1)...)
+	seen := map[string]bool{}
+	var out []string
+	for l := 0; l <= n; l++ {
+		for _, s := range all {
+			if len([]rune(s)) == l && !seen[s] {
+				seen[s] = true
+				out = append(out, s)
+			}
+		}
+	}
+	return out
+}
+
+var labels2Modes = []string{"labels2", "labels2-constructed", "labels2-hclwrite"}
+
+func genLabelPairs(thorough bool, emit func(engine.Case) bool) bool {
+	emit2 := func(typeName string, a, b []string) bool {
+		for _, m := range labels2Modes {
+			if !emit(labels2CaseMode(m, typeName, a, b)) {
+				return false
+			}
+		}
+		return true
+	}
+	// every ordered pair of single labels (including a label replaced by itself)
+	ls := pairLabels(thorough)
+	for _, a := range ls {
+		for _, b := range ls {
+			if !emit2("blk", []string{a}, []string{b}) {
+				return false
+			}
+		}
+	}
+	// every ordered pair of label lists of length <= 2 over a small set
+	few := []string{"", "a", "$", "${", "$${", "$$${", "%%{", "\"", "for"}
+	lists := [][]string{nil}
+	for _, a := range few {
+		lists = append(lists, []string{a})
+	}
+	for _, a := range few {
+		for _, b := range few {
+			lists = append(lists, []string{a, b})
+		}
+	}
+	for _, a := range lists {
+		for _, b := range lists {
+			if !emit2("blk", a, b) {
+				return false
+			}
+		}
+	}
+	// other block types
+	for _, bt := range blockTypes[1:] {
+		for _, a := range few {
+			for _, b := range few {
+				if !emit2(bt, []string{a}, []string{b}) {
+					return false
+				}
+			}
+		}
+	}
+	return true
 }
